@@ -64,7 +64,7 @@ func c18ConcurrentDuplicates(x *mc.Cell, pull bool, bound int, maxExec int64) {
 			}
 			mk := n.Mark()
 			s := sched.New(dsAndLockPoints) // datastore operations and library locks
-			defer s.Close() // also on a diverged replay: parked library goroutines must be released before the world is torn down
+			defer s.Close()                 // also on a diverged replay: parked library goroutines must be released before the world is torn down
 			var retErr [2]error
 			var returned [2]datatransfer.Response
 			for t := 0; t < 2; t++ {
